@@ -616,6 +616,9 @@ UPGRADER:
 				p.nextState(stateTailLF)
 				continue
 			}
+			if c != ' ' {
+				return ErrInvalidCharInHeader
+			}
 		case stateBodyTrailerHeaderKey:
 			switch c {
 			case ' ':
@@ -647,6 +650,8 @@ UPGRADER:
 
 				start = i + 1
 				p.nextState(stateBodyTrailerHeaderValueLF)
+			case '\n':
+				return ErrInvalidCharInHeader
 			default:
 				// if !isToken(c) {
 				// 	return ErrInvalidCharInHeader
@@ -671,6 +676,8 @@ UPGRADER:
 				p.headerKey = ""
 				p.headerValue = ""
 				p.nextState(stateBodyTrailerHeaderValueLF)
+			case '\n':
+				return ErrInvalidCharInHeader
 			default:
 				// if !isToken(c) {
 				// 	return ErrInvalidCharInHeader
